@@ -124,6 +124,15 @@ Theorem C11_update_never_unavailable : forall st o c ns name tag,
 Proof. exact update_never_unavailable. Qed.
 Print Assumptions C11_update_never_unavailable.
 
+(** runtime.reload: whatever changes in rules, server-level ipFilter, XFF, cache size and
+    maxConnections, if the listener-relevant part of the spec is unchanged the listener is not
+    restarted and the clients' keep-alive connections survive the update *)
+Theorem C11_hot_update_no_restart : forall l h1 h2,
+  need_restart {| rs_listen := l; rs_hot := h1 |} {| rs_listen := l; rs_hot := h2 |} = false /\
+  rt_reload {| rs_listen := l; rs_hot := h1 |} {| rs_listen := l; rs_hot := h2 |} = (0, true).
+Proof. exact hot_update_no_restart. Qed.
+Print Assumptions C11_hot_update_no_restart.
+
 (** non-vacuity: see [mux_nonvacuous], [tc_nonvacuous], [w_spec_ok] and the refutation witnesses in
     proofs/ReloadProofs.v *)
 Example C11_nonvacuous :
